@@ -190,6 +190,9 @@ func ParseResultField(packet *Packet, mariaDBExtendedTypeInfo bool) (*ColumnDesc
 	//       int<1> data type: 0x00:type, 0x01: format
 	//       string<lenenc> value
 	if mariaDBExtendedTypeInfo {
+		if pos >= len(packet.data) {
+			return nil, base.ErrMalformPacket
+		}
 		if packet.data[pos] == 0 {
 			// skip length byte
 			pos++
@@ -199,10 +202,18 @@ func ParseResultField(packet *Packet, mariaDBExtendedTypeInfo bool) (*ColumnDesc
 				return nil, err
 			}
 			// currently we dont need to take a look on extended info, so just grab it as is
+			if num >= uint64(len(packet.data)-pos) {
+				return nil, base.ErrMalformPacket
+			}
 			offset := int(num + 1)
 			field.ExtendedTypeInfo = packet.data[pos : pos+offset]
 			pos += offset
 		}
+	}
+
+	// the fixed part: 0x0C constant, charset (2), column length (4), type (1), flags (2), decimals (1), filler (2)
+	if len(packet.data)-pos < 13 {
+		return nil, base.ErrMalformPacket
 	}
 
 	//skip 0x0C constant field
